@@ -462,7 +462,10 @@ def ops (t : Tables) (kind op : String) (args : List String) : Option String :=
 end MsVerif.Driver.Malle
 
 namespace MsVerif.Driver
-/-- C03 ops (`J nonmall`, `C advfinds`, `C advbrute`) -/
+/-- C03 ops (`J nonmall`, `C advfinds`, `C advbrute`, …).  `nonmall2e` / `dnonmall2e` are the same
+    judges under another name: the harness uses it for scripts that contain ONE curve point in TWO
+    key encodings, so that this input class is one prefix in `known_findings.txt`. -/
 def opsMalle (t : Tables) (kind op : String) (args : List String) : Option String :=
-  Malle.ops t kind op args
+  let op' := if op == "nonmall2e" then "nonmall" else if op == "dnonmall2e" then "dnonmall" else op
+  Malle.ops t kind op' args
 end MsVerif.Driver
